@@ -548,7 +548,7 @@ def main(argv):
             # the only disagreement: a connectivity slot reads 0 while the group's set for that type has a member
             i = soft[0]
             known = any(e["property"] == PID and e["match"] == F12 for e in out.kf["open"])
-            small = cases[i] if known else shrink(sc, binary, cases[i], is_soft)
+            small = cases[i] if (known or i < len(corpus)) else shrink(sc, binary, cases[i], is_soft)
             errs, _, f3, results = evaluate(sc, binary, [small], "min")
             if f3 or 0 not in errs or not is_soft(errs[0]):
                 small, errs, results = cases[i], {0: all_err[i]}, [all_res[i]]
@@ -558,6 +558,7 @@ def main(argv):
                           "connectivity slot of a latency-policy group stays 0 after a node of that type revived (step %d, %s); %d histories show only this" % (info["step"], json.dumps(info.get("op")), len(soft)),
                           matchers=[F12])
         seen = set()
+        reported_other = False
         for i in hard[:8]:
             e = all_err[i]
             if has_code(e, (9,)):
@@ -571,19 +572,20 @@ def main(argv):
             seen.add(cls)
             first_op = info0.get("op", {}).get("op")
             pred = (lambda er: is_hard(er)) if cls == "other" else (lambda er: is_hard(er))
-            small = shrink(sc, binary, cases[i], pred)
+            small = cases[i] if i < len(corpus) else shrink(sc, binary, cases[i], pred)
             errs, _, f3, results = evaluate(sc, binary, [small], "min")
             if f3 or 0 not in errs or not is_hard(errs[0]):
                 small, errs, results = cases[i], {0: e}, [all_res[i]]
             info = describe(small, results[0], errs[0], HARD)
             matchers = [FLOOR] if info.get("groups_without_alive_member_after_reload") else []
+            reported_other = reported_other or not matchers
             out.violation("impl_vs_spec" if cls == "other" else "impl_vs_spec_reload",
                           {"case": small, "errors": [(a, b) for a, b, _ in errs[0]], "first_failing_step": info, "matchers": matchers,
                            "how": "./check C16 --replay <this file>: after the named step the implementation's alive flags / transition callbacks / group membership differ from the property"},
                           "after step %d (%s) the implementation disagrees with the property%s" % (info["step"], json.dumps(info.get("op")),
                               ": a non-empty group is left without an alive member" if matchers else ""),
                           matchers=matchers)
-        if fatal or not proof_ok or (tie_fail and not hard and not soft):
+        if fatal or ((not proof_ok or tie_fail) and not reported_other):
             what = {}
             if not proof_ok:
                 what["proof"] = pinfo["failed"]
